@@ -30,12 +30,13 @@ Outcomes(r) == {r.outs[i].outcome : i \in DOMAIN r.outs}
 Clean_C18(r) ==
   /\ r.outcome = "ok"                                  \* the process survived: no crash, hang, race report
   /\ Outcomes(r) \subseteq {"digest", "error"}         \* no panic
-  /\ BadListed(r) => Outcomes(r) = {"error"}           \* unreadable entry: an error, never a digest
+  /\ (BadListed(r) /\ ~r.churn) => Outcomes(r) = {"error"}   \* unreadable entry: an error, never a digest
+                                                        \* (files churned concurrently may or may not be readable: digest or error)
   /\ r.leak <= 0                                       \* nothing left behind
 
 \* ---- C04: deterministic, change-sensitive function of the file set ------------------------
 \* R0: a readable list yields a digest, the same one on every repetition / schedule of this record
-Determ_C04(r) == ~BadListed(r) /\ r.outcome = "ok" =>
+Determ_C04(r) == ~BadListed(r) /\ ~r.churn /\ r.outcome = "ok" =>
                    /\ Outcomes(r) = {"digest"} /\ Cardinality(Digests(r)) = 1
 \* R1: equal collections (same root) => equal digests        (adjacent pairs of the abs ordering)
 SameFun_C04(k) == LET a == Recs[OrdAbs[k]] b == Recs[OrdAbs[k + 1]] IN
